@@ -183,7 +183,9 @@ func c09Overlap(a, b c09Grid) bool {
 }
 
 // one canvas, several disjoint tagged boxes on the seams of one 2×2×2 block neighbourhood
-func (c *Ctx) c09GridCase(boxes int, withLong bool) {
+// exact = every box padded and a share of the samples EQUAL to the cutoff (0): the hypothesis of the property holds,
+// so the Balanced oracle is emitted on the marched mesh as well
+func (c *Ctx) c09GridCase(boxes int, withLong bool, exact bool) {
 	m := [3]int{c.Rng.Intn(5) - 3, c.Rng.Intn(5) - 3, c.Rng.Intn(5) - 3} // seams at 100*(m+1): -200 … 200
 	if m[0] < -1 || m[1] < -1 || m[2] < -1 {
 		c.Note("grid.negative-blocks")
@@ -233,8 +235,18 @@ func (c *Ctx) c09GridCase(boxes int, withLong bool) {
 			} else {
 				g.vals[i] = mag
 			}
+			if exact && c.Rng.Intn(4) == 0 {
+				g.vals[i] = 0 // sample equal to the cutoff
+			}
 		}
-		if c.Rng.Intn(3) == 0 && g.nx > 2 && g.ny > 2 && g.nz > 2 {
+		if exact && (g.nx <= 2 || g.ny <= 2 || g.nz <= 2) {
+			g.nx, g.ny, g.nz = max(g.nx, 3), max(g.ny, 3), max(g.nz, 3)
+			continue
+		}
+		if exact {
+			c.Note("grid.box.exact-cutoff-samples")
+		}
+		if (exact || c.Rng.Intn(3) == 0) && g.nx > 2 && g.ny > 2 && g.nz > 2 {
 			// padded variant (the hypothesis of the property holds): outermost layer outside
 			c.Note("grid.box.padded")
 			for k := 0; k < g.nz; k++ {
@@ -242,6 +254,9 @@ func (c *Ctx) c09GridCase(boxes int, withLong bool) {
 					for i := 0; i < g.nx; i++ {
 						if i == 0 || j == 0 || k == 0 || i == g.nx-1 || j == g.ny-1 || k == g.nz-1 {
 							g.vals[(k*g.ny+j)*g.nx+i] = 1 + 2*c.Rng.Intn(2)
+							if exact && c.Rng.Intn(4) == 0 {
+								g.vals[(k*g.ny+j)*g.nx+i] = 0
+							}
 						}
 					}
 				}
@@ -255,18 +270,24 @@ func (c *Ctx) c09GridCase(boxes int, withLong bool) {
 	for _, g := range gs {
 		args += " " + g.args()
 	}
+	var gmesh modeling.Mesh
 	ans := c09GuardMarch(func() string {
 		canvas := marching.NewMarchingCanvas(1)
 		for _, g := range gs {
 			canvas.AddField(g.field())
 		}
-		return c09CanonTris(canvas.March(0))
+		gmesh = canvas.March(0)
+		return c09CanonTris(gmesh)
 	})
 	if ans == "empty-or-panic" {
 		c.Note("grid.empty-mesh")
 	}
 	c.Note(fmt.Sprintf("grid.boxes=%d", len(gs)))
 	c.Emit("c09.march.grid", args, ans)
+	if exact && ans != "panic" && ans != "empty-or-panic" {
+		c.Note("grid.exact-cutoff-canvas")
+		c.Emit("c09.holds.balanced", c09MeshTokens(gmesh, true, false), "true")
+	}
 }
 
 // ---------------------------------------------------------------- whole pipeline
@@ -463,13 +484,26 @@ func (c *Ctx) c09PipelineCase(mode int, groups int) {
 	} else {
 		c.Note("pipe.cutoff=0")
 	}
+	grps := make([][]c09Shape, len(gl))
+	for i, g := range gl {
+		grps[i] = g.shapes
+	}
+	c.Note(fmt.Sprintf("pipe.groups=%d", len(gl)))
+	c.c09RunShapes("pipe", grps, cpu, cutoff, "c09.holds.closed")
+}
+
+// builds one canvas (one AddField per group, a group = CombineFields of its primitives), marches it and emits the
+// oracle lines: strictOp (closed: every directed edge exactly once, reverse exactly once, no degenerate face),
+// balanced, outward, near_iso
+func (c *Ctx) c09RunShapes(tag string, groups [][]c09Shape, cpu, cutoff float64, strictOp string) {
 	toks := []string{}
 	var mesh modeling.Mesh
+	blocks := 0
 	status := Guard(func() string {
 		canvas := marching.NewMarchingCanvas(cpu)
-		for _, g := range gl {
-			fields := make([]marching.Field, len(g.shapes))
-			for i, s := range g.shapes {
+		for _, g := range groups {
+			fields := make([]marching.Field, len(g))
+			for i, s := range g {
 				fields[i] = s.field()
 				toks = append(toks, s.tokens())
 			}
@@ -478,15 +512,176 @@ func (c *Ctx) c09PipelineCase(mode int, groups int) {
 		mesh = canvas.March(cutoff)
 		return "ok"
 	})
+	_ = blocks
 	if status != "ok" {
-		c.Emit("c09.holds.closed", "0 0", status)
+		c.Emit(strictOp, "0 0", status)
 		return
 	}
-	c.Note(fmt.Sprintf("pipe.tris~%d", c09Bucket(mesh.PrimitiveCount())))
-	c.Note(fmt.Sprintf("pipe.groups=%d", len(gl)))
-	c.Emit("c09.holds.closed", c09MeshTokens(mesh, true, false), "true")
+	c.Note(fmt.Sprintf("%s.tris~%d", tag, c09Bucket(mesh.PrimitiveCount())))
+	c.Emit(strictOp, c09MeshTokens(mesh, true, false), "true")
+	c.Emit("c09.holds.balanced", c09MeshTokens(mesh, true, false), "true")
 	c.Emit("c09.holds.outward", c09MeshTokens(mesh, true, true), "true")
 	c.Emit("c09.holds.near_iso", Fs(cpu, cutoff)+" "+strconv.Itoa(len(toks))+" "+strings.Join(toks, " ")+" "+c09MeshTokens(mesh, false, true), "true")
+}
+
+// ---------------------------------------------------------------- lattice-aligned / exact-cutoff inputs
+//
+// Shapes whose centres and sizes are whole numbers of cells (at cubesPerUnit 1, 2, 4, 5, 8, 10: integer, dyadic and
+// decimal world coordinates), so that many samples are EXACTLY on the cutoff (interpolation parameter 0 or 1, several
+// lattice edges producing one and the same corner position) or differ from it only by float noise.  Single block as
+// well as across seams.  Every class must pass the strict closed oracle, except "two inside regions separated only
+// by samples equal to the cutoff" (two boxes touching at a lattice face), which is the known finding
+// C09-touching-at-cutoff: strict predicate under its own op, Balanced must still hold.
+
+func c09Cells(cpu float64, x, y, z float64) vector3.Float64 {
+	return vector3.New(x/cpu, y/cpu, z/cpu)
+}
+
+type c09AlignedCase struct {
+	name   string
+	cpu    float64
+	cutoff float64
+	shapes []c09Shape // one group (CombineFields)
+	op     string
+}
+
+const c09Strict = "c09.holds.closed"
+const c09Witness = "c09.holds.closed_touching_at_cutoff_witness"
+
+func c09SphereC(cpu, x, y, z, r float64) c09Shape {
+	return c09Shape{kind: 0, a: c09Cells(cpu, x, y, z), r: r / cpu, strength: 1}
+}
+func c09BoxC(cpu, x, y, z, sx, sy, sz float64) c09Shape {
+	return c09Shape{kind: 1, a: c09Cells(cpu, x, y, z), b: c09Cells(cpu, sx, sy, sz), strength: 1}
+}
+func c09CapsuleC(cpu, ax, ay, az, bx, by, bz, r float64) c09Shape {
+	return c09Shape{kind: 2, a: c09Cells(cpu, ax, ay, az), b: c09Cells(cpu, bx, by, bz), r: r / cpu, strength: 1}
+}
+
+// fixed catalogue, run in both tiers (all parameters in cells)
+func c09AlignedCatalogue() []c09AlignedCase {
+	one := func(s c09Shape) []c09Shape { return []c09Shape{s} }
+	return []c09AlignedCase{
+		// single block
+		{"sphere r=1 @5cpu on a grid point (3-4-5 hits), one block", 5, 0, one(c09SphereC(5, 25, 25, 25, 5)), c09Strict},
+		{"sphere r=1 @10cpu on a grid point (6-8-10 hits), one block", 10, 0, one(c09SphereC(10, 40, 40, 40, 10)), c09Strict},
+		{"sphere r=1.3 @10cpu on a grid point (5-12-13 hits), one block", 10, 0, one(c09SphereC(10, 40, 40, 40, 13)), c09Strict},
+		{"sphere r=5 @1cpu on a grid point, one block", 1, 0, one(c09SphereC(1, 30, 30, 30, 5)), c09Strict},
+		{"sphere r=1.2 @5cpu, cutoff -0.2 (samples equal to a negative cutoff), one block", 5, -0.2, one(c09SphereC(5, 25, 25, 25, 6)), c09Strict},
+		{"box on lattice planes @5cpu, one block", 5, 0, one(c09BoxC(5, 15, 15, 15, 10, 10, 10)), c09Strict},
+		{"box on lattice planes at decimal coordinates @10cpu, one block", 10, 0, one(c09BoxC(10, 15, 17, 21, 6, 8, 10)), c09Strict},
+		{"box on lattice planes @1cpu, one block (negative block)", 1, 0, one(c09BoxC(1, -50, -50, -50, 6, 4, 8)), c09Strict},
+		{"axis capsule, radius 3 cells @5cpu, one block", 5, 0, one(c09CapsuleC(5, 10, 10, 10, 20, 10, 10, 3)), c09Strict},
+		{"slanted capsule between grid points, radius 4 cells @10cpu, one block", 10, 0, one(c09CapsuleC(10, 20, 20, 20, 40, 30, 24, 4)), c09Strict},
+		{"two spheres tangent at a grid point @5cpu, one block", 5, 0, []c09Shape{c09SphereC(5, 20, 25, 25, 5), c09SphereC(5, 30, 25, 25, 5)}, c09Strict},
+		{"two boxes sharing a lattice edge @2cpu, one block", 2, 0, []c09Shape{c09BoxC(2, 4, 4, 6, 4, 4, 4), c09BoxC(2, 8, 8, 6, 4, 4, 4)}, c09Strict},
+		{"two boxes sharing a lattice corner @2cpu, one block", 2, 0, []c09Shape{c09BoxC(2, 4, 4, 6, 4, 4, 4), c09BoxC(2, 8, 8, 10, 4, 4, 4)}, c09Strict},
+		// across seams
+		{"sphere r=1 @5cpu centred on the origin (8 blocks, negative)", 5, 0, one(c09SphereC(5, 0, 0, 0, 5)), c09Strict},
+		{"sphere r=1.3 @10cpu centred on a seam of two axes", 10, 0, one(c09SphereC(10, 100, 100, 40, 13)), c09Strict},
+		{"box on lattice planes @4cpu centred on the origin", 4, 0, one(c09BoxC(4, 0, 0, 0, 8, 8, 8)), c09Strict},
+		{"box with a face ON the seam plane @5cpu", 5, 0, one(c09BoxC(5, 105, 15, 15, 10, 10, 10)), c09Strict},
+		{"axis capsule across a seam, radius 3 cells @5cpu", 5, 0, one(c09CapsuleC(5, 90, 15, 15, 110, 15, 15, 3)), c09Strict},
+		{"two spheres tangent at a seam grid point @5cpu", 5, 0, []c09Shape{c09SphereC(5, 95, 25, 25, 5), c09SphereC(5, 105, 25, 25, 5)}, c09Strict},
+		// known finding: two inside regions separated only by samples equal to the cutoff
+		{"WITNESS two boxes touching at the lattice plane x=0 @1cpu", 1, 0, []c09Shape{c09BoxC(1, -1.5, 0, 0, 3, 4, 4), c09BoxC(1, 1.5, 0, 0, 3, 4, 4)}, c09Witness},
+		{"two boxes touching at a lattice face @1cpu, one block", 1, 0, []c09Shape{c09BoxC(1, 11.5, 12, 12, 3, 4, 4), c09BoxC(1, 14.5, 12, 12, 3, 4, 4)}, c09Witness},
+	}
+}
+
+func (c *Ctx) c09RunAligned(a c09AlignedCase) {
+	c.Note("aligned.case")
+	if a.op == c09Witness {
+		c.Note("aligned.class.touching-at-face(known-finding)")
+	}
+	c.c09RunShapes("aligned", [][]c09Shape{a.shapes}, a.cpu, a.cutoff, a.op)
+}
+
+// a random member of the lattice-aligned classes
+func (c *Ctx) c09AlignedRandom() c09AlignedCase {
+	cpu := []float64{1, 2, 4, 5, 8, 10}[c.Rng.Intn(6)]
+	// centre: inside one block, or on a seam of 1–3 axes
+	blk := [][3]int{{0, 0, 0}, {-1, -1, -1}, {1, 0, -2}, {0, -1, 0}}[c.Rng.Intn(4)]
+	var ctr [3]float64
+	seams := 0
+	onSeam := c.Rng.Intn(3) == 0
+	for k := 0; k < 3; k++ {
+		ctr[k] = float64(blk[k]*100 + 35 + c.Rng.Intn(30))
+		if onSeam && c.Rng.Intn(2) == 0 {
+			ctr[k] = float64(blk[k] * 100)
+			seams++
+		}
+	}
+	if seams == 0 {
+		c.Note("aligned.random.one-block")
+	} else {
+		c.Note(fmt.Sprintf("aligned.random.on-%d-seams", seams))
+	}
+	c.Note(fmt.Sprintf("aligned.random.cpu=%g", cpu))
+	R := float64(3 + c.Rng.Intn(8))
+	cutoff := 0.0
+	a := c09AlignedCase{cpu: cpu, op: c09Strict}
+	switch c.Rng.Intn(8) {
+	case 0, 1:
+		c.Note("aligned.random.sphere")
+		if c.Rng.Intn(3) == 0 {
+			R = []float64{5, 10, 13, 6.5, 2.5}[c.Rng.Intn(5)]
+		}
+		if c.Rng.Intn(4) == 0 {
+			// a negative cutoff that is a whole number of cells
+			cutoff = -1 / cpu
+			c.Note("aligned.random.cutoff=-1cell")
+		}
+		a.shapes = []c09Shape{c09SphereC(cpu, ctr[0], ctr[1], ctr[2], R)}
+	case 2, 3:
+		c.Note("aligned.random.box")
+		sx, sy, sz := float64(2*(2+c.Rng.Intn(5))), float64(2*(2+c.Rng.Intn(5))), float64(2*(2+c.Rng.Intn(5)))
+		a.shapes = []c09Shape{c09BoxC(cpu, ctr[0], ctr[1], ctr[2], sx, sy, sz)}
+	case 4:
+		c.Note("aligned.random.capsule")
+		d := [3]float64{float64(c.Rng.Intn(9) - 4), float64(c.Rng.Intn(9) - 4), float64(c.Rng.Intn(9) - 4)}
+		if d[0] == 0 && d[1] == 0 && d[2] == 0 {
+			d[0] = 5
+		}
+		r := float64(2 + c.Rng.Intn(4))
+		a.shapes = []c09Shape{c09CapsuleC(cpu, ctr[0]-d[0], ctr[1]-d[1], ctr[2]-d[2], ctr[0]+d[0], ctr[1]+d[1], ctr[2]+d[2], r)}
+	case 5:
+		c.Note("aligned.random.spheres-tangent-at-grid-point")
+		R = float64(3 + c.Rng.Intn(5))
+		k := c.Rng.Intn(3)
+		p, q := ctr, ctr
+		p[k] -= R
+		q[k] += R
+		a.shapes = []c09Shape{c09SphereC(cpu, p[0], p[1], p[2], R), c09SphereC(cpu, q[0], q[1], q[2], R)}
+	case 6:
+		h := float64(2 + c.Rng.Intn(3)) // half size in cells
+		p, q := ctr, ctr
+		share := 2 + c.Rng.Intn(2) // number of axes on which the boxes are offset: 2 = common edge, 3 = common corner
+		if share == 2 {
+			c.Note("aligned.random.boxes-sharing-edge")
+		} else {
+			c.Note("aligned.random.boxes-sharing-corner")
+		}
+		skip := c.Rng.Intn(3)
+		for k := 0; k < 3; k++ {
+			if share == 3 || k != skip {
+				p[k] -= h
+				q[k] += h
+			}
+		}
+		a.shapes = []c09Shape{c09BoxC(cpu, p[0], p[1], p[2], 2*h, 2*h, 2*h), c09BoxC(cpu, q[0], q[1], q[2], 2*h, 2*h, 2*h)}
+	default:
+		c.Note("aligned.random.boxes-touching-at-face(known-finding)")
+		h := float64(2 + c.Rng.Intn(3))
+		k := c.Rng.Intn(3)
+		p, q := ctr, ctr
+		p[k] -= h
+		q[k] += h
+		a.shapes = []c09Shape{c09BoxC(cpu, p[0], p[1], p[2], 2*h, 2*h, 2*h), c09BoxC(cpu, q[0], q[1], q[2], 2*h, 2*h, 2*h)}
+		a.op = c09Witness
+	}
+	a.cutoff = cutoff
+	return a
 }
 
 func c09Bucket(n int) int {
@@ -498,9 +693,16 @@ func c09Bucket(n int) int {
 }
 
 func runC09(c *Ctx) {
+	// lattice-aligned / exact-cutoff classes: the fixed catalogue in both tiers, then N random members
+	for _, a := range c09AlignedCatalogue() {
+		c.c09RunAligned(a)
+	}
+	for k := 0; k < c.N; k++ {
+		c.c09RunAligned(c.c09AlignedRandom())
+	}
 	// N = number of canvases of each kind (a canvas costs ~0.25 s per allocated block to march)
 	for k := 0; k < c.N; k++ {
-		c.c09GridCase(10+c.Rng.Intn(8), k%3 == 2)
+		c.c09GridCase(10+c.Rng.Intn(8), k%3 == 2, k%4 == 1)
 	}
 	for k := 0; k < c.N; k++ {
 		mode := 0
